@@ -711,6 +711,9 @@ func (wr *Writer) appendMap(rv reflect.Value, depth int, si *sinfo) {
 	wr.buf = append(wr.buf, '{')
 	for _, kv := range keys {
 		rm := rv.MapIndex(kv)
+		if wr.OmitNil && rm.Kind() == reflect.Interface && rm.IsNil() {
+			continue
+		}
 		if rm.Kind() == reflect.Ptr {
 			if rm.IsNil() {
 				if wr.OmitNil {
